@@ -5,8 +5,11 @@ use serde_json::Value;
 pub mod c01;
 pub mod c02;
 pub mod c03;
+pub mod c09;
 pub mod c14;
+pub mod c16;
 pub mod c17;
+pub mod c18;
 
 pub struct PropMeta {
     pub level: &'static str,
@@ -19,14 +22,17 @@ pub fn meta(prop: &str) -> PropMeta {
         "C01" => c01::META,
         "C02" => c02::META,
         "C03" => c03::META,
+        "C09" => c09::META,
         "C14" => c14::META,
+        "C16" => c16::META,
         "C17" => c17::META,
+        "C18" => c18::META,
         _ => PropMeta { level: "exploration", rule: "", assumptions: &[] },
     }
 }
 
 pub fn known(prop: &str) -> bool {
-    matches!(prop, "C01" | "C02" | "C03" | "C14" | "C17")
+    matches!(prop, "C01" | "C02" | "C03" | "C09" | "C14" | "C16" | "C17" | "C18")
 }
 
 pub fn run(ctx: &mut Ctx) {
@@ -34,8 +40,11 @@ pub fn run(ctx: &mut Ctx) {
         "C01" => c01::run(ctx),
         "C02" => c02::run(ctx),
         "C03" => c03::run(ctx),
+        "C09" => c09::run(ctx),
         "C14" => c14::run(ctx),
+        "C16" => c16::run(ctx),
         "C17" => c17::run(ctx),
+        "C18" => c18::run(ctx),
         p => panic!("unknown property {}", p),
     }
 }
@@ -46,8 +55,11 @@ pub fn replay(ctx: &mut Ctx, stage: &str, case: &Value) -> Check {
         "C01" => c01::replay(ctx, stage, case),
         "C02" => c02::replay(ctx, stage, case),
         "C03" => c03::replay(ctx, stage, case),
+        "C09" => c09::replay(ctx, stage, case),
         "C14" => c14::replay(ctx, stage, case),
+        "C16" => c16::replay(ctx, stage, case),
         "C17" => c17::replay(ctx, stage, case),
+        "C18" => c18::replay(ctx, stage, case),
         p => panic!("unknown property {}", p),
     }
 }
